@@ -445,3 +445,130 @@ Proof.
   destruct (run (for_each (size_smoother_body (scr_size screen) t) (scr_plates screen)) answers) as [[x rs] | e] eqn:E; [| discriminate].
   inversion Hrun; subst. exact (size_loop_trace _ _ _ _ _ _ E).
 Qed.
+
+(* ---------------------------------------------------------------- retrospective.py: PlatePermutationPlateGenerator._generate_plates *)
+Theorem src_plate_permutation_is_model :
+  forall (Scr : Type) (scr_size : Scr -> Z) (scr_plate_names : Scr -> list Z) (mk_subset : Scr -> list bool -> result Scr)
+         (mk_renamed : Scr -> list Z -> result Scr) (mk_combine : Scr -> Scr -> result Scr) force screen,
+  prog_eq_on any_answer
+    (src_plate_permutation Scr scr_size scr_plate_names mk_subset mk_renamed mk_combine force screen)
+    (match pp_split mk_subset screen (pp_selection force (scr_plate_names screen) (scr_size screen)) with
+     | Err e => Ret (Err e)
+     | Ok (tp, np) => bind (plate_permutation_prog (scr_plate_names tp))
+                           (fun new_names => Ret (pp_finish mk_renamed mk_combine tp np new_names))
+     end).
+Proof.
+  intros Scr scr_size scr_plate_names mk_subset mk_renamed mk_combine force screen.
+  unfold src_plate_permutation, pp_split.
+  set (sv := pp_selection force (scr_plate_names screen) (scr_size screen)).
+  assert (Hsv : (if opt_list_truthy force
+                 then dop u <- rp_unwrap force;
+                      rp_ret (map (fun n => negb (memZ n u)) (scr_plate_names screen))
+                 else rp_ret (mask_ones (scr_size screen))) = rp_ret sv).
+  { subst sv. unfold pp_selection. destruct force as [[| x l] |]; reflexivity. }
+  cbv zeta. rewrite Hsv. unfold rp_ret at 1. cbn [rp_bind bind].
+  unfold rp_lift, rp_permutation, rp_draw, plate_permutation_prog, pp_finish.
+  destruct (existsb negb sv).
+  - destruct (mk_subset screen sv) as [tp | e]; cbn [rp_bind bind res_bind]; [| apply peq_refl].
+    destruct (mk_subset screen (map negb sv)) as [np | e]; cbn [rp_bind bind res_bind rp_ret]; [| apply peq_refl].
+    constructor. intros a _. cbn [bind].
+    destruct (mk_renamed tp a) as [p | e]; cbn [rp_bind bind res_bind is_some rp_unwrap rp_ret]; [| apply peq_refl].
+    destruct (mk_combine p np); apply peq_refl.
+  - destruct (mk_subset screen sv) as [tp | e]; cbn [rp_bind bind res_bind rp_ret]; [| apply peq_refl].
+    constructor. intros a _. cbn [bind].
+    destruct (mk_renamed tp a) as [p | e]; cbn [rp_bind bind res_bind is_some rp_ret]; apply peq_refl.
+Qed.
+
+(* ---------------------------------------------------------------- retrospective.py: SampleSegregatingPermutationPlateGenerator._generate_plates *)
+Lemma rp_bind_cong {A B : Type} (p p' : rprog A) (f f' : A -> rprog B) :
+  prog_eq_on any_answer p p' -> (forall a, prog_eq_on any_answer (f a) (f' a)) ->
+  prog_eq_on any_answer (rp_bind p f) (rp_bind p' f').
+Proof.
+  intros Hp Hf. unfold rp_bind. apply peq_bind; [exact Hp|]. intros [a | e]; [apply Hf | apply peq_refl].
+Qed.
+
+Lemma rp_fold_cong {S A : Type} (f g : S -> A -> rprog S) :
+  (forall s a, prog_eq_on any_answer (f s a) (g s a)) ->
+  forall l s, prog_eq_on any_answer (rp_fold f l s) (rp_fold g l s).
+Proof.
+  intros H l. induction l as [| a l IH]; intros s; cbn [rp_fold]; [apply peq_refl|].
+  apply rp_bind_cong; [apply H | exact IH].
+Qed.
+
+Lemma fold_append_all {A : Type} : forall (ps : list A) acc, fold_left (fun r p => r ++ [p]) ps acc = acc ++ ps.
+Proof.
+  induction ps as [| p ps IH]; intros acc; cbn [fold_left]; [now rewrite app_nil_r|].
+  rewrite IH, <- app_assoc. reflexivity.
+Qed.
+
+(* the canonical body of the loop over the samples *)
+Definition seg_body (mx : Z) (rows : Z -> list Z) (acc : list (list Z)) (i : Z) : rprog (list (list Z)) :=
+  if zlen (rows i) >? mx then
+    match ceil_div_float (zlen (rows i)) mx with
+    | Err e => Ret (Err e)
+    | Ok n => Draw (RPermutation (rows i))
+                   (fun a => match array_split_z a n with Err e => Ret (Err e) | Ok ps => Ret (Ok (acc ++ ps)) end)
+    end
+  else Ret (Ok (acc ++ [rows i])).
+
+Lemma seg_loop (mx : Z) (rows : Z -> list Z) : forall ids acc,
+  prog_eq_on any_answer (rp_fold (seg_body mx rows) ids acc)
+    (bind (sample_seg_plates mx (map rows ids))
+          (fun r => Ret (match r with Ok ps => Ok (acc ++ ps) | Err e => Err e end))).
+Proof.
+  induction ids as [| i rest IH]; intros acc.
+  - cbn. rewrite app_nil_r. apply peq_refl.
+  - cbn [rp_fold map sample_seg_plates]. unfold seg_body at 1, sample_seg_body.
+    destruct (zlen (rows i) >? mx).
+    + destruct (ceil_div_float (zlen (rows i)) mx) as [n | e]; cbn [rp_bind bind]; [| apply peq_refl].
+      constructor. intros a _. cbn [bind].
+      destruct (array_split_z a n) as [ps | e]; cbn [bind]; [| apply peq_refl].
+      eapply peq_trans; [apply IH|]. eapply peq_trans; [| apply peq_sym, peq_bind_assoc].
+      apply peq_bind; [apply peq_refl|]. intros [qs | e]; cbn [bind]; [rewrite app_assoc|]; apply peq_refl.
+    + cbn [rp_bind bind].
+      eapply peq_trans; [apply IH|]. eapply peq_trans; [| apply peq_sym, peq_bind_assoc].
+      apply peq_bind; [apply peq_refl|]. intros [qs | e]; cbn [bind app]; [rewrite <- app_assoc|]; apply peq_refl.
+Qed.
+
+Lemma enumerate_z_zz {A : Type} (l : list A) : enumerate_z l = enumerate_zz l.
+Proof. unfold enumerate_z, enumerate_zz, zrange, zlen. now rewrite Nat2Z.id. Qed.
+
+(* the labelling loop, for an arbitrary body equal to the canonical one *)
+Lemma label_loop (f : list Z -> Z * list Z -> rprog (list Z)) :
+  (forall l k idx, f l (k, idx) = Ret (label_set l idx k)) ->
+  forall kps labels, rp_fold f kps labels = Ret (label_all labels kps).
+Proof.
+  intros Hf. induction kps as [| [k idx] kps IH]; intros labels; cbn [rp_fold label_all]; [reflexivity|].
+  rewrite Hf. destruct (label_set labels idx k) as [l | e]; cbn [rp_bind bind res_bind]; [apply IH | reflexivity].
+Qed.
+
+Theorem src_sample_segregating_is_model :
+  forall (Scr : Type) (scr_size : Scr -> Z) (scr_sample_ids : Scr -> list Z) (scr_sample_rows : Scr -> Z -> list Z)
+         (mk_labelled : Scr -> list Z -> result Scr) max_plate_size screen,
+  prog_eq_on any_answer
+    (src_sample_segregating Scr scr_size scr_sample_ids scr_sample_rows mk_labelled max_plate_size screen)
+    (bind (sample_seg_prog (map (scr_sample_rows screen) (scr_sample_ids screen)) (scr_size screen) max_plate_size)
+          (fun r => Ret (match r with Ok labels => mk_labelled screen labels | Err e => Err e end))).
+Proof.
+  intros Scr scr_size scr_sample_ids scr_sample_rows mk_labelled mx screen.
+  unfold src_sample_segregating, sample_seg_prog. cbv zeta.
+  eapply peq_trans.
+  { apply rp_bind_cong; [| intros plates; apply peq_refl].
+    apply (rp_fold_cong _ (seg_body mx (scr_sample_rows screen))). intros acc i. unfold seg_body.
+    destruct (zlen (scr_sample_rows screen i) >? mx).
+    - unfold rp_lift at 1. destruct (ceil_div_float (zlen (scr_sample_rows screen i)) mx) as [n | e]; cbn [rp_bind bind]; [| apply peq_refl].
+      unfold rp_permutation, rp_draw. cbn [bind]. constructor. intros a _. cbn [bind]. unfold rp_lift at 1.
+      destruct (array_split_z a n) as [ps | e]; cbn [rp_bind bind]; [| apply peq_refl].
+      rewrite (rp_fold_pure _ (fun r p => r ++ [p])) by (intros s p; reflexivity).
+      rewrite fold_append_all. cbn [rp_ret rp_bind bind]. apply peq_refl.
+    - cbn [rp_ret rp_bind bind]. apply peq_refl. }
+  unfold rp_bind at 1.
+  eapply peq_trans; [apply peq_bind; [apply seg_loop | intros r; apply peq_refl]|].
+  eapply peq_trans; [apply peq_bind_assoc|]. eapply peq_trans; [| apply peq_sym, peq_bind_assoc].
+  apply peq_bind; [apply peq_refl|]. intros [ps | e]; cbn [bind app]; [| apply peq_refl].
+  rewrite (label_loop (fun (labels : list Z) '(k, idx) => dop l <- rp_lift (label_set labels idx k); rp_ret l)).
+  2:{ intros l k idx. unfold rp_lift. cbn [rp_bind bind]. destruct (label_set l idx k); reflexivity. }
+  rewrite enumerate_z_zz. unfold rp_lift. cbn [rp_bind bind].
+  destruct (label_all (labels_blank (scr_size screen)) (enumerate_zz ps)) as [labels | e]; cbn [bind]; [| apply peq_refl].
+  destruct (mk_labelled screen labels); apply peq_refl.
+Qed.
